@@ -67,3 +67,120 @@ def gen(rng, tier):
         inc = tuple(rng.choice(pool) for _ in range(rng.randint(0, 3)))
         req = tuple(rng.choice(pool) for _ in range(rng.randint(0, 3)))
         yield {"incoming_args": inc, "required_args": req, "memo": memo}
+
+
+# ---- _handle_union_types: "a union source needs all members accepted and a union target needs one" ---------------------
+import z3  # noqa: E402
+from pyvc.types import TOpt, TRec, Val  # noqa: E402
+
+TypeV = TRec("TypeV", {"tid": TObj, "is_uniontype": TBool})
+TypeV.identity = "tid"
+TypeV.class_tests = {"UnionType": "is_uniontype"}
+
+get_origin_c = Contract("typing::get_origin", params={"tp": TypeV}, returns=TObj, trusted=True, pure=True,
+                        note="typing.get_origin: the unsubscripted form of a parametrised type (None otherwise)")
+get_args_c = Contract("typing::get_args", params={"tp": TypeV}, returns=SO, trusted=True, pure=True,
+                      note="typing.get_args: the members of a union / the arguments of a generic")
+
+
+def _is_union(S, t):
+    if S.symbolic:
+        union = Val(TObj, z3.Const("global:Union", TObj.sort()))
+        return S.or_(t.is_uniontype, lambda: S.eq(S.uf("fn:get_origin", TObj, t), union))
+    from types import UnionType
+    from typing import Union, get_origin
+    return isinstance(t, UnionType) or get_origin(t) is Union
+
+
+def _members(S, t):
+    if S.symbolic:
+        return S.uf("fn:get_args", SO, t)
+    from typing import get_args
+    return get_args(t)
+
+
+def _as_obj(S, t):
+    return t.tid if S.symbolic else t
+
+
+def _hu_ensures(S, a, r, post):
+    ui, ur = _is_union(S, a.incoming_type), _is_union(S, a.required_type)
+    mi, mr = (lambda: _members(S, a.incoming_type)), (lambda: _members(S, a.required_type))
+    inc, req = _as_obj(S, a.incoming_type), _as_obj(S, a.required_type)
+    val = (lambda: S.some(r)) if S.symbolic else (lambda: bool(r))
+    return {
+        "neither is a union: no verdict here (None)": S.implies(S.and_(S.not_(ui), lambda: S.not_(ur)), lambda: S.is_none(r)),
+        "union into union: every source member is accepted by some target member": S.implies(
+            S.and_(ui, lambda: ur), lambda: S.and_(S.not_(S.is_none(r)), lambda: S.iff(val(), S.forall(
+                0, S.len(mi()), lambda i: S.exists(0, S.len(mr()), lambda j: _compat(S, mi()[i], mr()[j], a.memo)))))),
+        "a union source needs all members accepted": S.implies(
+            S.and_(ui, lambda: S.not_(ur)), lambda: S.and_(S.not_(S.is_none(r)), lambda: S.iff(val(), S.forall(
+                0, S.len(mi()), lambda i: _compat(S, mi()[i], req, a.memo))))),
+        "a union target needs one member that accepts": S.implies(
+            S.and_(S.not_(ui), lambda: ur), lambda: S.and_(S.not_(S.is_none(r)), lambda: S.iff(val(), S.exists(
+                0, S.len(mr()), lambda j: _compat(S, inc, mr()[j], a.memo))))),
+    }
+
+
+handle_union_types = Contract(
+    f"{F}::_handle_union_types", params={"incoming_type": TypeV, "required_type": TypeV, "memo": TObj},
+    returns=TOpt(TBool), ensures=_hu_ensures, locals_={"Union": TObj},
+)
+UNION = [is_type_compatible, all_types_compatible, get_origin_c, get_args_c, handle_union_types]
+
+
+def hu_gen(rng, tier):
+    from pipefunc.typing import TypeCheckMemo
+    pool = _pool()
+    memo = TypeCheckMemo(globals={}, locals={})
+    for _ in range(500 if tier == "quick" else 5000):
+        yield {"incoming_type": rng.choice(pool), "required_type": rng.choice(pool), "memo": memo}
+
+
+# ---- _check_identical_or_any: the base case of the relation ---------------------------------------------------------------
+TypeUV = TRec("TypeUV", {"tid": TObj, "is_unresolvable": TBool, "type_str": TObj})
+TypeUV.identity = "tid"
+TypeUV.class_tests = {"Unresolvable": "is_unresolvable"}
+warn_t = Contract("warnings::warnings.warn", params={"msg": TObj, "stacklevel": TObj}, returns=TObj, trusted=True, pure=True,
+                  static=True, note="diagnostic output")
+
+
+def _g(S, name):
+    return Val(TObj, z3.Const(f"global:{name}", TObj.sort()))
+
+
+def _cia_ensures(S, a, r, post):
+    if S.symbolic:
+        i, q = a.incoming_type, a.required_type
+        return {"an unresolvable hint on either side: compatible (with a warning); otherwise identical types, Any required, "
+                "or a missing annotation on either side": S.iff(r, S.or_(
+                    i.is_unresolvable, q.is_unresolvable, lambda: S.eq(i, q), lambda: S.eq(q.tid, _g(S, "Any")),
+                    lambda: S.eq(i.tid, _g(S, "NoAnnotation")), lambda: S.eq(q.tid, _g(S, "NoAnnotation"))))}
+    from typing import Any
+    from pipefunc.typing import NoAnnotation, Unresolvable
+    i, q = a.incoming_type, a.required_type
+    return {"unresolvable / identical / Any required / no annotation": bool(r) == (
+        isinstance(i, Unresolvable) or isinstance(q, Unresolvable) or i == q or q is Any or i is NoAnnotation or q is NoAnnotation)}
+
+
+check_identical_or_any = Contract(
+    f"{F}::_check_identical_or_any", params={"incoming_type": TypeUV, "required_type": TypeUV}, returns=TBool,
+    ensures=_cia_ensures, locals_={"Any": TObj, "NoAnnotation": TObj},
+    note="`==` on type objects is modelled as identity of the opaque objects (type objects compare by identity, "
+         "parametrised aliases by their parts - the latter is outside this model and part of the assumed relation)",
+)
+IDENT = [warn_t, check_identical_or_any]
+
+
+def cia_gen(rng, tier):
+    from pipefunc.typing import NoAnnotation, Unresolvable
+    pool = _pool() + [NoAnnotation, Unresolvable("Foo")]
+    for _ in range(400 if tier == "quick" else 4000):
+        yield {"incoming_type": rng.choice(pool), "required_type": rng.choice(pool)}
+
+
+def cia_call(fn, a):
+    import warnings
+    with warnings.catch_warnings():
+        warnings.simplefilter("ignore")
+        return fn(a["incoming_type"], a["required_type"])
